@@ -13,6 +13,7 @@ mod pure;
 mod range;
 mod rng;
 mod seq;
+mod reader;
 mod sess;
 mod wire;
 mod worker;
